@@ -28,7 +28,9 @@ Scope.  Exhaustive:
     on N = 5 random hypergraphs only (one call costs ~0.45 s).
   * directed, order 3: all 4096 directed hypergraphs on nodes 0..2 (12 possible hyperedges with disjoint non-empty
     source/target) under all 6 relabellings; orders 3 and 4: all directed hypergraphs on nodes 0..3 (50 possible
-    hyperedges) with at most 2 (quick) / 3 (thorough) hyperedges under all 24 relabellings.
+    hyperedges) with at most 2 hyperedges under all 24 relabellings; thorough adds all those with exactly 3
+    hyperedges under the three adjacent transpositions (they generate S4 and the space is closed under relabelling, so
+    invariance under them on the whole space implies invariance under all 24).
 Sampled (seeded): undirected and directed hypergraphs on 3..7 nodes, labels 0..N-1 / scattered / negative / huge
 integers, hyperedge sizes 1..6, isolated nodes, weighted and unweighted, dyadic-dense ones for the ESU pass; every
 permutation of the labels when N <= 5, else 30 random ones (order 4: 10 in quick); 10 insertion orders (hyperedge order,
@@ -527,6 +529,18 @@ def _all_maps(nodes):
     return [[[a, b] for a, b in zip(nodes, p)] for p in permutations(nodes) if list(p) != nodes]
 
 
+def _generator_maps(nodes):
+    """the n-1 adjacent transpositions: they generate the symmetric group, so on a space of hypergraphs that is closed
+    under relabelling and enumerated completely, invariance under these implies invariance under every permutation"""
+    nodes = sorted(nodes)
+    out = []
+    for i in range(len(nodes) - 1):
+        p = list(nodes)
+        p[i], p[i + 1] = p[i + 1], p[i]
+        out.append([[a, b] for a, b in zip(nodes, p)])
+    return out
+
+
 def _random_maps(rng, nodes, count):
     nodes = sorted(nodes)
     out = []
@@ -734,7 +748,7 @@ def _work(task):
         return out
     if kind == "xd":
         possible, order, n = task["possible"], task["order"], task["n"]
-        maps = _all_maps(range(n))
+        maps = _all_maps(range(n)) if task["all_maps"] else _generator_maps(range(n))
         for idx in task["subsets"]:
             edges = [possible[i] for i in idx]
             rng = random.Random(f"C11:{task['seed']}:xd:{order}:{n}:{sorted(idx)}")
@@ -841,11 +855,16 @@ def _plan(ctx):
     # ---- directed
     pd3 = _possible_d(3)
     for ch in _chunks([tuple(i for i in range(12) if m >> i & 1) for m in range(4096)], 128):
-        light.append(dict(kind="xd", order=3, n=3, possible=pd3, subsets=ch, seed=seed, n_shuffles=2))
+        light.append(dict(kind="xd", order=3, n=3, possible=pd3, subsets=ch, seed=seed, n_shuffles=2, all_maps=True))
     pd4 = _possible_d(4)
     for order in (3, 4):
-        for ch in _chunks(_index_sets(len(pd4), 2 if q else 3), 64):
-            light.append(dict(kind="xd", order=order, n=4, possible=pd4, subsets=ch, seed=seed, n_shuffles=1 if q else 2))
+        for ch in _chunks(_index_sets(len(pd4), 2), 64):
+            light.append(dict(kind="xd", order=order, n=4, possible=pd4, subsets=ch, seed=seed, n_shuffles=1 if q else 2,
+                              all_maps=True))
+        if not q:  # exactly 3 hyperedges: the three adjacent transpositions (generators) instead of all 24 permutations
+            for ch in _chunks(combinations(range(len(pd4)), 3), 256):
+                light.append(dict(kind="xd", order=order, n=4, possible=pd4, subsets=ch, seed=seed, n_shuffles=2,
+                                  all_maps=False))
     for _ in range(200 if q else 3000):
         g = _random_d(rng, 3, 7)
         nodes = set(v for s, t in g["edges"] for v in s + t) | set(g["isolated"])
@@ -879,8 +898,8 @@ def run(ctx):
              "hyperedge sizes 1..6, labels 0..N-1 / scattered / negative / huge, isolated nodes, weighted or not, each "
              "relabelled by every permutation (N <= 5) or 30 random ones, re-inserted in 10 orders, and extended by "
              "hyperedges larger than the order")
-    ctx.rule("directed: all directed hypergraphs on 3 nodes, all on 4 nodes with <= 2 (quick) / 3 (thorough) hyperedges, "
-             "each under every relabelling; seeded random ones on 3..7 nodes with 2..6 nodes per hyperedge")
+    ctx.rule("directed: all directed hypergraphs on 3 nodes, all on 4 nodes with <= 2 hyperedges, each under every "
+             "relabelling (thorough: also all with 3 hyperedges under the adjacent transpositions, which generate S4); seeded random ones on 3..7 nodes with 2..6 nodes per hyperedge")
     ctx.rule("a case is one call of the function under test; it is non-trivial when the census of its base hypergraph is "
              "not identically zero (undirected: by the brute-force oracle; directed: by the observed census)")
     ctx.assume("the oracle's canonical form (minimum over all k! relabellings of the sorted tuple of sorted hyperedges, "
@@ -914,7 +933,8 @@ def run(ctx):
     ctx.exhaustive_parts.append("compute_motifs order 4: " + ("all hypergraphs on 4 nodes with at most 3 hyperedges"
                                 if ctx.quick else "all 2048 hypergraphs on 4 nodes; all on 5 nodes with at most 3 hyperedges"))
     ctx.exhaustive_parts.append("compute_directed_motifs order 3: all 4096 directed hypergraphs on 3 nodes x 6 relabellings; "
-                                "orders 3, 4: all on 4 nodes with at most %d hyperedges x 24 relabellings" % (2 if ctx.quick else 3))
+                                "orders 3, 4: all on 4 nodes with at most 2 hyperedges x 24 relabellings" +
+                                ("" if ctx.quick else "; all on 4 nodes with 3 hyperedges x 3 generating transpositions"))
 
 
 def replay(data):
